@@ -514,11 +514,16 @@ func verifyCRLSignature(result *crlreader.CRLReadResult, chains *core.Certificat
 }
 
 func (R *Repository) DeleteTempFilesIfExist() {
-	repoDirBasePath, err := os.Stat(R.crlConfig.WorkDir)
+	//filepath.Walk does not follow a symbolic link, a work dir which is a link to the real directory has to be resolved first
+	workDir, err := filepath.EvalSymlinks(R.crlConfig.WorkDir)
+	if err != nil {
+		workDir = R.crlConfig.WorkDir
+	}
+	repoDirBasePath, err := os.Stat(workDir)
 	if err != nil {
 		R.logger.Warn(fmt.Sprintf("Error while cleaning temp directory %s: %v", R.crlConfig.WorkDir, err))
 	}
-	err = filepath.Walk(R.crlConfig.WorkDir, func(path string, info os.FileInfo, err error) error {
+	err = filepath.Walk(workDir, func(path string, info os.FileInfo, err error) error {
 		if err != nil {
 			return err
 		}
